@@ -186,12 +186,15 @@ def forbidden_scan():
     return hits
 
 
-def prove(ctx, propfile_rel, extra_targets=()):
-    """Build props/Cxx.vo, then ask Coq for the assumptions of each theorem in it."""
+def prove(ctx, propfile_rel, extra_targets=(), only=None):
+    """Build props/Cxx.vo, then ask Coq for the assumptions of each theorem in it (`only`: a regex selecting
+    the theorems of a shared props file that belong to the property being checked)."""
     vfile = os.path.join(COQ, propfile_rel)
     target = propfile_rel[:-2] + ".vo"
     rc, out = coq_make([target] + list(extra_targets))
     names = theorem_names(vfile)
+    if only:
+        names = [n for n in names if re.search(only, n)]
     if rc != 0:
         # find which file failed, to name the broken theorem as closely as possible
         m = re.findall(r'File "([^"]+)", line (\d+)', out)
@@ -210,7 +213,7 @@ def prove(ctx, propfile_rel, extra_targets=()):
         q += 'Print Assumptions %s.\nCheck "%s"%%string.\n' % (n, "END-" + n)
     qd = os.path.join(BUILD, "assume")
     os.makedirs(qd, exist_ok=True)
-    qf = os.path.join(qd, "Assume_%s.v" % ctx.prop)
+    qf = os.path.join(qd, "Assume_%s_%s.v" % (ctx.prop, os.path.basename(propfile_rel)[:-2]))
     open(qf, "w").write(q)
     rc, out = sh("coqc -noglob -Q %s SLX %s" % (COQ, qf), timeout=300)
     if rc != 0:
@@ -367,6 +370,22 @@ def known_findings():
     if not os.path.exists(p):
         return []
     return json.load(open(p)).get("known", [])
+
+
+def stage_replay(ctx):
+    """Which suite wrote the file named by --replay: "slots" / "packing" for a case of a lifting-pass suite, None for
+    an end-to-end case of the property's own check (or no replay)."""
+    if not ctx.replay_in:
+        return None
+    try:
+        rp = json.load(open(ctx.replay_in)).get("replay") or {}
+    except Exception:
+        return None
+    if "tree" in rp and "pass" in rp:
+        return "slots"
+    if "input" in rp and "pass" in rp:
+        return "packing"
+    return rp.get("suite")
 
 
 def finish(ctx, level="proof", checker_cmd=None, rule="", samples=None, extra=None):
